@@ -75,13 +75,23 @@ def rule_no_operand_mutation(ctx: Ctx, rule: str = "operand-mutation") -> None:
                     ctx.ok(rule, fi.key, "writes only to objects created in the call: " + _desc(site)[:70], nontrivial=False)
                 continue
             me = fi.params[0] if fi.params and fi.cls is not None and fi.kind in ("method", "property") else None
+            def is_private(key: str) -> bool:
+                nm = key.split(".")[-1]
+                return nm.startswith("_") and not (nm.startswith("__") and nm.endswith("__"))
+
             if site.via:
-                # propagated effect: reported at the callee's own site unless the callee is exempt there
-                callee_exempt = site.via in SELF_MUTATORS or site.via.endswith(".__init__") or site.via.endswith(".__post_init__") or site.via in actions
-                if not callee_exempt:
+                # propagated effect: a public callee reports its own site; a private helper (which may legitimately
+                # edit the fresh object its callers hand it) and the exempt in-place methods are reported here, at
+                # the call site that hands them an operand
+                if site.via.endswith(".__init__") or site.via.endswith(".__post_init__"):
                     continue
-                if site.via.endswith("__init__") or site.via.endswith("__post_init__"):
+                callee_reports_itself = not is_private(site.via) and site.via not in SELF_MUTATORS and site.via not in actions
+                if callee_reports_itself:
                     continue
+            elif is_private(fi.key) and fi.key not in actions:
+                # a private helper editing its own argument: judged where it is called
+                ctx.ok(rule, fi.key, "private helper edits its argument; judged at its call sites: " + norm(site.node)[:50], nontrivial=False)
+                continue
             if fi.name in ("__init__", "__post_init__") and all(o[1] == me for o in porig):
                 counts["ctor-self"] += 1
                 ctx.ok(rule, fi.key, "constructor initialises self: " + norm(site.node)[:60], nontrivial=False)
